@@ -139,6 +139,9 @@ fn format_variant(
     };
     let intersected = |ty: &TokenStream| quote!(#intersected(::std::string::String::from(#ty)));
 
+    // with `as` / `type` on the variant, `parsed_ty` is the variant's whole payload: its own fields do not matter
+    let overridden = variant_attr.type_as.is_some() || variant_attr.type_override.is_some();
+
     let formatted = match (untagged_variant, enum_attr.tagged()?) {
         (true, _) | (_, Tagged::Untagged) => quote!(#parsed_ty),
         (false, Tagged::Externally) => match &variant.fields {
@@ -158,7 +161,7 @@ fn format_variant(
             _ => quote!(format!("{{ \"{}\": {} }}", #ts_name, #parsed_ty)),
         },
         (false, Tagged::Adjacently { .. }) => match &variant.fields {
-            Fields::Unnamed(unnamed) if unnamed.unnamed.len() == 1 => {
+            Fields::Unnamed(unnamed) if unnamed.unnamed.len() == 1 && !overridden => {
                 let field = &unnamed.unnamed[0];
                 let field_attr = FieldAttr::from_attrs(&unnamed.unnamed[0].attrs)?;
 
@@ -189,11 +192,12 @@ fn format_variant(
             ),
         },
         (false, Tagged::Internally { .. }) => match variant_type.inline_flattened {
-            Some(_) => {
+            // (a struct variant carries the tag itself)
+            Some(_) if !overridden => {
                 quote! { #parsed_ty }
             }
-            None => match &variant.fields {
-                Fields::Unnamed(unnamed) if unnamed.unnamed.len() == 1 => {
+            _ => match &variant.fields {
+                Fields::Unnamed(unnamed) if unnamed.unnamed.len() == 1 && !overridden => {
                     let field = &unnamed.unnamed[0];
                     let field_attr = FieldAttr::from_attrs(&unnamed.unnamed[0].attrs)?;
 
